@@ -117,3 +117,65 @@ Proof.
   split; [reflexivity|]. split; [eexists; eexists; vm_compute; reflexivity|].
   eexists; eexists; split; [vm_compute; reflexivity | reflexivity].
 Qed.
+
+(* ---- collection operations, site level, WHOLE surface language (Proofs/C04Sites.v): for ANY environment and ANY
+   tracer state an accepted collection operation is recorded under its own operation name with, as operands, the
+   ids of the values its arguments are bound to ([named_id ρ x i]: x is bound to a value whose operation id is i),
+   in written order.  (map / reduce / calls: C11_map_bound, C11_reduce_bound, C11_call_bound.) *)
+From NadaV.Proofs Require Import TraceMono C11Program C12Steps C04Sites.
+
+Theorem C04_zip_site : forall ρ a b s w s1,
+  eval_rhs GenScalar.G ρ (RZip a b) s = Ok (w, s1) ->
+  exists l r id ty, named_id ρ a l /\ named_id ρ b r /\ wid w = Some id /\ recorded_as s1 id ty (ABinary "Zip" l r).
+Proof. exact (zip_site GenScalar.G). Qed.
+Print Assumptions C04_zip_site.
+
+Theorem C04_inner_product_site : forall ρ a b s w s1,
+  eval_rhs GenScalar.G ρ (RInner a b) s = Ok (w, s1) ->
+  exists l r id ty, named_id ρ a l /\ named_id ρ b r /\ wid w = Some id /\ recorded_as s1 id ty (ABinary "InnerProduct" l r).
+Proof. exact (inner_product_site GenScalar.G). Qed.
+Print Assumptions C04_inner_product_site.
+
+Theorem C04_unzip_site : forall ρ a s w s1,
+  eval_rhs GenScalar.G ρ (RUnzip a) s = Ok (w, s1) ->
+  exists src id ty, named_id ρ a src /\ wid w = Some id /\ recorded_as s1 id ty (AUnary "Unzip" src).
+Proof. exact (unzip_site GenScalar.G). Qed.
+Print Assumptions C04_unzip_site.
+
+Theorem C04_array_new_site : forall ρ es s w s1,
+  eval_rhs GenScalar.G ρ (RArrayNew es) s = Ok (w, s1) ->
+  exists ids id ty, Forall2 (named_id ρ) es ids /\ wid w = Some id /\ recorded_as s1 id ty (ANew "ArrayNew" ids).
+Proof. exact (array_new_site GenScalar.G). Qed.
+Print Assumptions C04_array_new_site.
+
+Theorem C04_tuple_new_site : forall ρ a b s w s1,
+  eval_rhs GenScalar.G ρ (RTupleNew a b) s = Ok (w, s1) ->
+  exists i1 i2 id ty, named_id ρ a i1 /\ named_id ρ b i2 /\ wid w = Some id /\ recorded_as s1 id ty (ANew "TupleNew" [i1; i2]).
+Proof. exact (tuple_new_site GenScalar.G). Qed.
+Print Assumptions C04_tuple_new_site.
+
+Theorem C04_ntuple_new_site : forall ρ es s w s1,
+  eval_rhs GenScalar.G ρ (RNTupleNew es) s = Ok (w, s1) ->
+  exists ids id ty, Forall2 (named_id ρ) es ids /\ wid w = Some id /\ recorded_as s1 id ty (ANew "NTupleNew" ids).
+Proof. exact (ntuple_new_site GenScalar.G). Qed.
+Print Assumptions C04_ntuple_new_site.
+
+Theorem C04_object_new_site : forall ρ fs s w s1,
+  eval_rhs GenScalar.G ρ (RObjectNew fs) s = Ok (w, s1) ->
+  exists ids id ty, Forall2 (named_id ρ) (map snd fs) ids /\ wid w = Some id /\ recorded_as s1 id ty (ANew "ObjectNew" ids).
+Proof. exact (object_new_site GenScalar.G). Qed.
+Print Assumptions C04_object_new_site.
+
+Theorem C04_index_site : forall ρ a i s w s1,
+  eval_rhs GenScalar.G ρ (RIndex a i) s = Ok (w, s1) ->
+  exists src, named_id ρ a src
+    /\ (store s1 = store s \/ exists ty, wid w = Some (counter s + 1)%Z /\ recorded_as s1 (counter s + 1)%Z ty (ANTupleAcc i src)).
+Proof. exact (index_site GenScalar.G). Qed.
+Print Assumptions C04_index_site.
+
+Theorem C04_field_site : forall ρ a k s w s1,
+  eval_rhs GenScalar.G ρ (RField a k) s = Ok (w, s1) ->
+  exists src, named_id ρ a src
+    /\ (store s1 = store s \/ exists ty, wid w = Some (counter s + 1)%Z /\ recorded_as s1 (counter s + 1)%Z ty (AObjectAcc k src)).
+Proof. exact (field_site GenScalar.G). Qed.
+Print Assumptions C04_field_site.
